@@ -322,7 +322,7 @@ func init() {
 							o.Inc("zero_inversions_rejected")
 							continue
 						}
-						if res.Verdict != engine.Accept {
+						if !res.AcceptedHonestly() {
 							return fw.Violate("gadget_failed:"+op.Name, desc+": "+resStr(res))
 						}
 						if v, bad := compare(op.Name, op.Exact, got, want, desc); bad {
@@ -399,7 +399,7 @@ func init() {
 						return io
 					}
 					desc := fmt.Sprintf("%s n=%d face=%s", opn, n, face)
-					if res.Verdict != engine.Accept {
+					if !res.AcceptedHonestly() {
 						return fw.Violate("gadget_failed:"+opn, desc+": "+resStr(res)+" "+res.Msg)
 					}
 					if v, bad := compare(opn, true, got, want, desc); bad {
@@ -454,7 +454,7 @@ func init() {
 					if io, bad := inconclusiveIf(res); bad {
 						return io
 					}
-					if res.Verdict != engine.Accept {
+					if !res.AcceptedHonestly() {
 						return fw.Violate("gadget_failed:commit", resStr(res)+" "+res.Msg)
 					}
 					for _, p := range ps {
